@@ -66,6 +66,10 @@ type input struct {
 	IdleUs      int   `json:"idle_us,omitempty"` // pool idle timeout (microseconds)
 	Seed        int64 `json:"seed,omitempty"`
 	Pause       int   `json:"pause,omitempty"` // 0..3: how often goroutines yield / sleep
+	// CancelUs > 0: the context given to the lazy reader is cancelled that many
+	// microseconds after the goroutines start; such a case runs in a child process
+	// (child.go) so that a runtime fatal error is an observation.
+	CancelUs int `json:"cancel_us,omitempty"`
 	// race: outcome of the thorough-tier run under the race detector (race.go)
 	Race *raceResult `json:"race,omitempty"`
 }
@@ -73,6 +77,7 @@ type input struct {
 // ---- fixture: one block, its index-header, an always-loaded reader ---------
 
 type fixture struct {
+	root   string // <tmp>
 	dir    string // <tmp>/data
 	bkt    objstore.Bucket
 	id     ulid.ULID
@@ -99,7 +104,7 @@ func getFixture() (*fixture, error) {
 			fxErr = err
 			return
 		}
-		f := &fixture{dir: filepath.Join(tmp, "data"), values: map[string][]string{}}
+		f := &fixture{root: tmp, dir: filepath.Join(tmp, "data"), values: map[string][]string{}}
 		if fxErr = os.MkdirAll(f.dir, 0o755); fxErr != nil {
 			return
 		}
@@ -305,7 +310,10 @@ func readCounters(reg *prometheus.Registry) counters {
 }
 
 func (f *fixture) newLazy(failLoad bool, reg *prometheus.Registry) (*indexheader.LazyBinaryReader, error) {
-	ctx := context.Background()
+	return f.newLazyCtx(context.Background(), failLoad, reg)
+}
+
+func (f *fixture) newLazyCtx(ctx context.Context, failLoad bool, reg *prometheus.Registry) (*indexheader.LazyBinaryReader, error) {
 	if failLoad {
 		// nothing on disk, nothing in the bucket, lazy download: construction
 		// succeeds and every load fails.
@@ -450,7 +458,8 @@ func pause(rng *rand.Rand, level int) {
 
 func runConc(f *fixture, in input) (common.Case, error) {
 	c := common.Case{Class: "conc"}
-	ctx := context.Background()
+	ctx, cancel := context.WithCancel(context.Background())
+	defer cancel()
 	reg := prometheus.NewRegistry()
 	var r *indexheader.LazyBinaryReader
 	var pool *indexheader.ReaderPool
@@ -468,9 +477,12 @@ func runConc(f *fixture, in input) (common.Case, error) {
 		r = rr.(*indexheader.LazyBinaryReader)
 	} else {
 		var err error
-		if r, err = f.newLazy(false, reg); err != nil {
+		if r, err = f.newLazyCtx(ctx, false, reg); err != nil {
 			return c, err
 		}
+	}
+	if in.CancelUs > 0 {
+		c.Class += "-ctx-cancel"
 	}
 	var mu sync.Mutex
 	lk := map[string]int{}
@@ -530,6 +542,15 @@ func runConc(f *fixture, in input) (common.Case, error) {
 			}
 			mu.Unlock()
 		}(g)
+	}
+	if in.CancelUs > 0 {
+		wg.Add(1)
+		go func() {
+			defer wg.Done()
+			<-start
+			time.Sleep(time.Duration(in.CancelUs) * time.Microsecond)
+			cancel()
+		}()
 	}
 	close(start)
 	wg.Wait()
@@ -602,6 +623,9 @@ func run(raw json.RawMessage) (common.Case, error) {
 		if in.Lookers > 64 || in.Closers > 64 || in.LookupsEach > 5000 || in.ClosesEach > 5000 {
 			return common.Case{}, fmt.Errorf("case too large")
 		}
+		if in.CancelUs > 0 && os.Getenv("VERIF_C16_CHILD") == "" {
+			return runInChild(f, raw)
+		}
 		return runConc(f, in)
 	}
 	return common.Case{}, fmt.Errorf("bad kind %q", in.Kind)
@@ -652,6 +676,13 @@ func genConc(r *rand.Rand, tier string) input {
 	in.ClosesEach = (3 + r.Intn(30)) * scale
 	in.CloseMode = common.Pick(r, 0, 0, 1, 2, 3)
 	in.Pause = common.Pick(r, 0, 0, 1, 2, 3)
+	if r.Intn(3) == 0 {
+		// cancel the reader's context while lookups and unloads race
+		in.CancelUs = common.Pick(r, 1, 50, 200, 1000)
+		in.CloseMode = 0
+		in.Closers = 1 + r.Intn(3)
+		in.Lookers = 2 + r.Intn(7)
+	}
 	if r.Intn(4) == 0 {
 		in.Pool = true
 		in.IdleUs = common.Pick(r, 100, 300, 1000, 3000)
@@ -702,6 +733,10 @@ func gen(r *rand.Rand, tier string, n int) []any {
 }
 
 func main() {
+	if len(os.Args) >= 2 && os.Args[1] == "c16child" {
+		childMain(os.Args[2:])
+		return
+	}
 	common.Main(common.Prop{ID: "C16", Facts: facts, Gen: gen, Run: run, QuickN: 400, ThoroughN: 4000})
 	if fx != nil {
 		os.RemoveAll(filepath.Dir(fx.dir))
